@@ -6,6 +6,7 @@ package main
 // and none with the Lean model.  Three-way comparison: IEncode vs specRefEncode vs Spec.wire (Lean).
 
 import (
+	"bytes"
 	"encoding/binary"
 	"encoding/hex"
 	"fmt"
@@ -150,8 +151,48 @@ type c02ctx struct {
 }
 
 // one record, both directions
+// errorResponseNoBody: SMPP 3.4 §4.1.2, §4.1.4, §4.1.6, §4.4.2 — "the body is not returned if the command_status
+// field contains a non-zero value": for these types a response with a non-zero status is the bare 16-octet header.
+var errorResponseNoBody = map[string]bool{"smpp34.BindResp": true, "smpp34.SubmitSmResp": true}
+
+// checkErrorResponse: both directions for an error response (status != 0) of such a type
+func (c *c02ctx) checkErrorResponse(name string, s *shape, r record) {
+	res := c.res
+	want := make([]byte, 16)
+	binary.BigEndian.PutUint32(want[0:], 16)
+	binary.BigEndian.PutUint32(want[4:], uint32(r["Header.ID"].num))
+	binary.BigEndian.PutUint32(want[8:], uint32(r["Header.Status"].num))
+	binary.BigEndian.PutUint32(want[12:], uint32(r["Header.Sequence"].num))
+	encOp := "enc " + name + " " + renderInput(name, r)
+	res.Eval("errresp/"+encOp, true)
+	if _, out, _, _ := goEnc(name, r); out != nil && !bytes.Equal(out, want) {
+		res.Violate("C02.not-the-specified-layout:"+name+":error-response-body", fmt.Sprintf("command_status %#x: the document prescribes the bare header (16 octets), IEncode produced %d octets", r["Header.Status"].num, len(out)), []string{encOp})
+	}
+	decOp := "dec " + name + " " + hx(want)
+	c.ops, c.goOut = append(c.ops, decOp), append(c.goOut, "")
+	line, got, _ := goDec(name, want)
+	c.goOut[len(c.goOut)-1] = line
+	if got == nil {
+		res.Violate("C02.rejects-specified-image:"+name+":error-response", fmt.Sprintf("IDecode refuses the 16-octet error response %s the document prescribes", hx(want)), []string{decOp})
+		return
+	}
+	for _, f := range []string{"Header.ID", "Header.Status", "Header.Sequence"} {
+		if got[f].num != r[f].num {
+			res.Violate("C02.decoded-differs:"+name+":"+f, fmt.Sprintf("error response %s: %s decoded as %d", hx(want), f, got[f].num), []string{decOp})
+			return
+		}
+	}
+	res.Count("decode:error-response-accepted")
+}
+
 func (c *c02ctx) check(name string, s *shape, sp *specT, r record, toModel bool) {
 	res := c.res
+	if errorResponseNoBody[name] && r["Header.Status"].num != 0 {
+		c.checkErrorResponse(name, s, r)
+		// the body-present layout is checked with status 0
+		r = cloneRecord(r)
+		r["Header.Status"] = value{kind: kNum, num: 0}
+	}
 	encOp := "enc " + name + " " + renderInput(name, r)
 	c.res.Eval(encOp, true)
 	line, out, after, _ := goEnc(name, r)
@@ -318,4 +359,12 @@ func runC02(res *Result, d *Driver, g *Rng, tier string) {
 		res.Sample(c.ops[0][:min(len(c.ops[0]), 300)] + "  =>  " + c.goOut[0][:min(len(c.goOut[0]), 200)])
 	}
 	res.Compare(d, "Spec.wire (Lean) vs the Go reference serialiser", c.ops, c.goOut)
+}
+
+func cloneRecord(r record) record {
+	c := record{}
+	for k, v := range r {
+		c[k] = v
+	}
+	return c
 }
